@@ -126,7 +126,7 @@ func init() {
 		Run:        runC03,
 		Exhaustive: true,
 		Rule: "complete enumeration of the decision table: entry {absent,fresh,stale-ok,too-stale} x failure cache {empty,hit} x SyncUpdate x FailHard x MaxStaleness {0,1h} x FailedUpdateTTL {default,-1} x builder {ok,err} " +
-			"(inconsistent combinations skipped and counted) x pairing {Failover/ShardedMap, Failover/SyncMap, FailoverOf/ShardedMapOf} x 3 repetitions (thorough: 10 and custom UpdateTTL/FailedUpdateTTL values); " +
+			"(inconsistent combinations skipped and counted) x pairing {Failover/ShardedMap, Failover/SyncMap, FailoverOf/ShardedMapOf} x 4 repetitions alternating SyncRead off/on (thorough: 12 and custom UpdateTTL/FailedUpdateTTL values); " +
 			"each lone Get is judged against the documented outcome (result class, builder invocation count and timing, backend content and failure cache after quiescence, no lock left) and all pairings/repetitions of a cell must agree; " +
 			"distinct_nontrivial = number of distinct consistent cells executed (every cell is non-trivial: it fixes one row of the table)",
 		Required:    []string{"cells.executed", "runs"},
@@ -136,7 +136,7 @@ func init() {
 
 func runC03(b *Batch) {
 	cells := c03Cells()
-	reps := b.Pick(3, 10)
+	reps := b.Pick(4, 12)
 	if b.Index == 0 {
 		b.R.Count("cells.skipped_inconsistent", int64(256-len(cells)))
 	}
@@ -156,12 +156,12 @@ func runC03(b *Batch) {
 			for rep := 0; rep < reps; rep++ {
 				rng := rand.New(rand.NewSource(b.CaseSeed(ci*1000 + rep)))
 				cfg := foConfig{API: p[0], BackendKind: p[1], SyncUpdate: cell.SU, FailHard: cell.FH, MaxStaleness: cell.MS, FailedUpdateTTL: cell.FUT}
+				cfg.SyncRead = rep%2 == 1 // not a dimension of the table: the outcome must not depend on it
 				if b.Thorough() && rep >= 3 {
 					cfg.UpdateTTL = []time.Duration{10 * time.Minute, time.Hour}[rep%2]
 					if cell.FUT == 0 {
 						cfg.FailedUpdateTTL = []time.Duration{time.Minute, 24 * time.Hour}[rep%2]
 					}
-					cfg.SyncRead = rep%3 == 0
 				}
 				obs, x := c03Run(cfg, cell, rng)
 				defer x.release()
